@@ -125,14 +125,14 @@ func (g *genState) setPrimitive(m protoreflect.Message) bool {
 		case 2:
 			v.ValueUs, v.Precision, v.Timezone = 1582934400000000, dtpb.DateTime_DAY, "UTC"
 		case 3:
-			v.ValueUs, v.Precision, v.Timezone = 1582972215000000, dtpb.DateTime_SECOND, pick(g.r, []string{"UTC", "+05:30", "-11:00"})
+			v.ValueUs, v.Precision, v.Timezone = 1582972215000000, dtpb.DateTime_SECOND, pick(g.r, []string{"UTC", "+05:30", "-11:00", "-03:30", "-09:30", "-00:30", "+05:45"})
 		case 4:
-			v.ValueUs, v.Precision, v.Timezone = 1582972215250000, dtpb.DateTime_MILLISECOND, pick(g.r, []string{"UTC", "+05:30"})
+			v.ValueUs, v.Precision, v.Timezone = 1582972215250000, dtpb.DateTime_MILLISECOND, pick(g.r, []string{"UTC", "+05:30", "-03:30", "-00:30"})
 		default:
 			v.ValueUs, v.Precision, v.Timezone = 1582972215250123, dtpb.DateTime_MICROSECOND, "-11:00"
 		}
 	case *dtpb.Instant:
-		v.ValueUs, v.Precision, v.Timezone = 1582972215250000, dtpb.Instant_MILLISECOND, pick(g.r, []string{"UTC", "+05:30"})
+		v.ValueUs, v.Precision, v.Timezone = 1582972215250000, dtpb.Instant_MILLISECOND, pick(g.r, []string{"UTC", "+05:30", "-03:30", "-09:30"})
 		if g.r.bool() {
 			v.ValueUs, v.Precision = 1582972215000000, dtpb.Instant_SECOND
 		}
